@@ -513,3 +513,70 @@ func fixTrailerStyle(b *Backend) {
 		}
 	}
 }
+
+
+// patternMisfit changes the value of one path variable whose pattern fixes literals or a number of
+// segments ({x=lit/*}, {x=*/lit/*}) so that it no longer matches that pattern: a surplus segment
+// (preferably spelled like the literal that follows the variable in the template), a missing one,
+// or a wrong literal. Reports whether it changed anything.
+func patternMisfit(t *rapid.T, rule RuleSpec, m proto.Message, label string) bool {
+	tm, err := parseTemplate(rule.Template)
+	if err != nil {
+		return false
+	}
+	msg := m.ProtoReflect()
+	for _, v := range tm.Vars {
+		if v.End == -1 || v.End-v.Start < 1 {
+			continue
+		}
+		hasLit := false
+		for i := v.Start; i < v.End; i++ {
+			if tm.Segs[i].Kind == segLit {
+				hasLit = true
+			}
+		}
+		if !hasLit && v.End-v.Start < 2 {
+			continue // a single '*': every non-empty segment value fits
+		}
+		fds, err := resolveFieldPath(msg.Descriptor(), v.Path, false)
+		if err != nil || fds[len(fds)-1].Kind() != protoreflect.StringKind {
+			continue
+		}
+		cur := msg
+		for _, fd := range fds[:len(fds)-1] {
+			cur = cur.Mutable(fd).Message()
+		}
+		leaf := fds[len(fds)-1]
+		val := cur.Get(leaf).String()
+		parts := strings.Split(val, "/")
+		switch rapid.IntRange(0, 3).Draw(t, label+"_kind") {
+		case 0, 1: // one segment too many: the literal following the variable, or something fresh
+			extra := "extra"
+			if v.End < len(tm.Segs) && tm.Segs[v.End].Kind == segLit && rapid.Bool().Draw(t, label+"_next_lit") {
+				extra = tm.Segs[v.End].Lit
+			}
+			val = val + "/" + extra
+		case 2: // one segment too few
+			if len(parts) < 2 {
+				continue
+			}
+			val = strings.Join(parts[:len(parts)-1], "/")
+		default: // a literal position spelled differently
+			changed := false
+			for i := v.Start; i < v.End && i-v.Start < len(parts); i++ {
+				if tm.Segs[i].Kind == segLit {
+					parts[i-v.Start] += "x"
+					changed = true
+					break
+				}
+			}
+			if !changed {
+				continue
+			}
+			val = strings.Join(parts, "/")
+		}
+		cur.Set(leaf, protoreflect.ValueOfString(val))
+		return true
+	}
+	return false
+}
